@@ -89,7 +89,11 @@ func init() {
 		},
 		"(reflect.Value).Convert": func(fr *frame, a []value) value {
 			dst := a[1].(iface).v.(rtype).t
-			return makeReflectValue(dst, conv(dst, rV2T(a[0]).t, rV2V(a[0])))
+			src := rV2T(a[0]).t
+			if types.IdenticalIgnoreTags(dst.Underlying(), src.Underlying()) {
+				return makeReflectValue(dst, rV2V(a[0])) // same representation (named <-> unnamed)
+			}
+			return makeReflectValue(dst, conv(dst, src, rV2V(a[0])))
 		},
 		"(reflect.Value).CanConvert": func(fr *frame, a []value) value {
 			return types.ConvertibleTo(rV2T(a[0]).t, a[1].(iface).v.(rtype).t)
